@@ -127,6 +127,27 @@ def run(ctx, rep):
         k2 = {(s['fn'], s['what'], s['ord']) for s in s2}
         extra = sorted(k2 - {(a, b, c) for a, b, c in k1})
         rep.note('release-like config: %d panic sources (default: %d)' % (len(s2), len(sites)))
+    # ---- R16.6 ---------------------------------------------------------------------------------
+    # memory that was never written must not become a value: what it holds depends on earlier evaluations on the same thread
+    rep.rule('R16.6', 'no uninitialised memory becomes observable (Vec::set_len only shrinks; no assume_init / uninitialized)')
+    nun = 0
+    for f in F.all_fns:
+        if f.crate != 'lib':
+            continue
+        for b, t in f.calls():
+            n_ = callee_name(t)
+            if not user_site(t['span']):
+                continue
+            if n_.endswith('Vec::<T, A>::set_len') and len(t['args']) == 2:
+                nun += 1
+                v_ = strip(sym(f, t['args'][1]))
+                shrinks = v_[0] == 'binop' and v_[1] == 'Sub' and strip(v_[2])[0] == 'len' and psc.unref(strip(v_[2])[1]) == psc.unref(sym(f, t['args'][0]))
+                rep.ob(shrinks, 'R16.6', f.path, 'Vec::set_len', 'the new length is len() - k of the same vector (elements are given up, none appear out of unwritten memory): %s' % str(v_)[:80], span_loc(t['span']))
+            elif n_.endswith(('MaybeUninit<T>>::assume_init', 'MaybeUninit::<T>::assume_init', 'mem::uninitialized', 'MaybeUninit::<T>::uninit', 'Vec::<T, A>::spare_capacity_mut', 'alloc::alloc::alloc')) \
+                    and f.path != 'object::allocate':
+                nun += 1
+                rep.bad('R16.6', f.path, n_.split('::')[-1], 'uninitialised memory is created outside the one allocation routine (object::allocate, whose callers write the box before use: R03.1)', span_loc(t['span']))
+    rep.count('uninit_sites', nun)
     # ---- R16.5 ---------------------------------------------------------------------------------
     n = 0
     for im in F.impls:
